@@ -293,15 +293,21 @@ func unitC07byz(e common.Env, p *common.Part) {
 	p.Rule = "Byzantine members are one or more real disc.Member instances under the same identifier with filtered inputs and re-routed outputs, following targeted plans under which honest members can still complete: partition-and-lie (one Byzantine instance per honest group, partition healed at a PRNG instant), shadow coalition (Byzantine instances that hear only each other and a phantom of a silent member), two-faced without partition, outsider and member replaying every captured transmission under their own identity, response flood (several instances of one identifier answer replayed queries with different views after the victim completed), late surplus announcer (one member more than expected joins at a PRNG instant around the moment the views converge) surplus at a decision point (the victim is held at a verif point of Synchronize while the surplus member announces itself) and view rewrite at a decision point (while the victim is held there, a second instance of a session member that only ever heard silent phantoms announces a different view of the same length to it), mirror (a member whose every transmission to X carries, under its real tag, exactly the list X itself announced or queried last) and crafted lists (its lists are replaced by permuted, duplicated, truncated, padded, empty or 30000-entry lists, or the type byte of its otherwise untouched transmissions by 0, 4, 5, 0x7f, 0x80, 0xff) and confusable views (its announcements carry the destination's own latest list with entries replaced by values that a sloppy comparison or encoding could confuse with them: the same decimal digits split elsewhere, identifiers from the UTF-16 surrogate range, the same low byte, the same high byte, byte-swapped; its responses mirror the queried list) and answering for a silent member (a configured member that talks to the Byzantine member only; the Byzantine member re-sends everything it receives from it to the honest members over its own link) and stray acknowledgements (a configured member that never announces itself answers queries, under its own tag, with acknowledgements of another list than the agreed one; exactly the expected honest members call and must all complete) and retry after a failed call (all honest: a member whose call fails after it has acknowledged the others' lists calls Synchronize again on the same topic, on the same object, together with late members); distinct key = (plan, parameters, seed); non-trivial when an honest member completed or a Byzantine transmission was processed by an honest member"
 	plans := []string{"partition-and-lie", "shadow-coalition", "two-faced", "replay", "response-flood", "shadow-coalition", "partition-and-lie", "late-surplus-announcer", "surplus-at-decision-point", "surplus-at-decision-point", "view-rewrite-at-decision-point", "view-rewrite-at-decision-point", "mirror", "crafted-lists", "confusable-views", "confusable-views", "answering-for-a-silent-member", "retry-after-failed-call", "stray-acknowledgements", "stray-acknowledgements"}
 	n := e.Pick(400, 6000)
+	// the index a plan gets is the number of its earlier runs, not the position in this loop: plans pick their variants by residues
+	// of that index, and the loop position of a plan is always the same modulo the length of the plan list (with 20 plans the
+	// confusable-views plan saw one of its five identifier families only)
+	occ := map[string]int{}
 	for i := 0; i < n; i++ {
+		plan := plans[i%len(plans)]
+		k := occ[plan]
+		occ[plan]++
 		if !e.Mine(i) || p.ViolationCount() >= 3 {
 			continue
 		}
-		plan := plans[i%len(plans)]
 		rng := e.Rng("c07b", i)
 		key := fmt.Sprintf("%s #%d", plan, i)
 		p.Begin(key)
-		r := runByzPlan(plan, i, rng)
+		r := runByzPlan(plan, k, rng)
 		if os.Getenv("VERIF_DEBUG") == plan {
 			fmt.Fprintf(os.Stderr, "DEBUG %s %s\n", key, r.note)
 			for id, ins := range r.net.insts {
